@@ -217,3 +217,35 @@ Example C17_opt_ok_example :
   opt_ok [sec 40%positive; IStmt (SVarDecl 50%positive DScalar (ELitI 1)); sec 41%positive] = true
   /\ List.length (opt_nolicm [sec 40%positive; IStmt (SVarDecl 50%positive DScalar (ELitI 1)); sec 41%positive]) = 2%nat.
 Proof. vm_compute. split; reflexivity. Qed.
+
+(* licm, for ALL assignment lists of the inner loop body (LicmProps.v over the model Opt.number / Opt.lookup,
+   which optcorr ties to optimizer.licm node by node): the pre-loop code declares every temporary once, and
+   two hoisting products with different (target, occurrence) keys never read the same temporary. *)
+From FFCX Require Import LicmProps.
+
+Theorem C17_licm_declares_each_temporary_once :
+  forall temps inner outer ob oe l seen c tab pre,
+    NoDup temps -> number temps inner outer ob oe l seen c = Some (tab, pre) ->
+    NoDup (declared_list pre) /\ map snd tab = seq c (List.length tab).
+Proof.
+  intros. split; [eapply number_declares_once; eauto | eapply number_counters; eauto].
+Qed.
+Print Assumptions C17_licm_declares_each_temporary_once.
+
+Theorem C17_licm_products_do_not_share_a_temporary :
+  forall temps inner outer ob oe l seen c0 tab pre lv1 o1 lv2 o2 c,
+    number temps inner outer ob oe l seen c0 = Some (tab, pre) ->
+    lookup lv1 o1 tab = Some c -> lookup lv2 o2 tab = Some c ->
+    o1 = o2 /\ exists k, lval_eqb k lv1 = true /\ lval_eqb k lv2 = true.
+Proof. intros. eapply temps_not_shared; eauto. Qed.
+Print Assumptions C17_licm_products_do_not_share_a_temporary.
+
+(* non-vacuity: two products on different targets both hoist and get temporaries 0 and 1 *)
+Example C17_licm_number_example :
+  let p (a : positive) := (LArr a [ESym 21%positive],
+        [EAcc 2%positive [ESym 21%positive]; EAcc 3%positive [ESym 20%positive]; EAcc 4%positive [ESym 20%positive]]) in
+  match number [90%positive; 91%positive] 21%positive 20%positive 0 3 [p 7%positive; p 8%positive] [] O with
+  | Some (tab, pre) => map snd tab = [0%nat; 1%nat] /\ declared_list pre = [90%positive; 91%positive]
+  | None => False
+  end.
+Proof. vm_compute. split; reflexivity. Qed.
